@@ -35,7 +35,7 @@ RULE = ('one evaluation = one proof script step sequence submitted to the checke
         'that reached the SMT oracle; trivial = rejected scripts and sequents already seen')
 EXPLANATION = ('each accepted sequent is translated to SMT: type variables -> uninterpreted sorts, functions -> arrays, free/schematic variables -> constants; '
                'unsat of hyps & ~concl means valid in every model; sat is confirmed by brute-force evaluation in the finite model')
-BUDGET_S = {'quick': 240, 'thorough': 1700}
+BUDGET_S = {'quick': 240, 'thorough': 900}
 
 
 _P = {}
